@@ -45,6 +45,11 @@ def check_type(value: Any, attr_type: Type) -> bool:
     if attr_type is float:
         attr_type = numbers.Real
 
+    if attr_type is None:
+        # `None` is how `NoneType` is spelled in annotations (`typing` generics
+        # translate it, builtin generics such as `list[None]` do not).
+        attr_type = type(None)
+
     if sys.version_info >= (3, 10) and isinstance(attr_type, types.UnionType):
         return any(check_type(value, type_) for type_ in attr_type.__args__)
 
